@@ -398,11 +398,16 @@ func (s *Set) c04(w *simapi.Write, v *simapi.View) {
 				n, _ := interp.LivePods(v, s.ns, simapi.StrMap(stableSvc, "spec.selector"))
 				if n == 0 && len(tot) > 0 {
 					how := "forward"
-					if wl := s.workload(v); wl != nil && workloadImage(wl) == s.stableImg && s.targetImg == s.stableImg && s.isRealPartitionStyle() {
-						// the user reverted a partition-style workload after every pod had been updated: no pod of the
-						// stable revision is left, the Rollout takes the revert for one more release and pins the stable
-						// Service to the revision it is about to release
-						how = "revert-after-every-pod-was-updated"
+					restarted := false
+					for _, a := range s.R.UserActions {
+						if a == "rollback" || a == "v3" {
+							restarted = true
+						}
+					}
+					if restarted && s.isRealPartitionStyle() && tot[s.stableImg] == 0 {
+						// the user reverted / superseded a partition-style release after every pod had been updated: no pod of
+						// the stable revision is left, the Rollout restarts at step 1 and pins the stable Service to it
+						how = "release-restarted-after-every-pod-was-updated"
 					}
 					for _, a := range s.R.UserActions {
 						if strings.HasPrefix(a, "jump:") {
